@@ -75,6 +75,7 @@ ASSUMPTIONS = [
 TRUSTED_EXTRA = ["C13: harness/target_canon.py (canonical structure of generated code), harness/gen_template.py, "
                  "harness/ref_render.py (reference renderer = oracle), harness/tmpl_rt.py (exception oracle)"]
 LEAN_EXTRA_TARGETS = ["MakoModel.Codegen.Spec"]
+REGEN = ["RuntimeFacts"]
 
 FUEL = 600
 MODES = [
@@ -94,16 +95,17 @@ class Impl:
     """one compiled template set; options are switched per run (they are read at render time)"""
     serial = 0
 
-    def __init__(self, bodies):
+    def __init__(self, bodies, except_class="Exception"):
         from mako.lookup import TemplateLookup
         self.bodies = bodies
+        self.except_class = except_class
         self.lk = TemplateLookup(cache_enabled=False)
         self.metas = []
         # unique URIs per set: mako's ModuleInfo registry (used by the error page) is keyed by module id
         Impl.serial += 1
         prefix = "s%d_" % Impl.serial
         for i, b in enumerate(bodies):
-            src, anon = G.to_source(b, prefix)
+            src, anon = G.to_source(b, prefix, except_class)
             self.lk.put_string("%st%d.html" % (prefix, i), src)
             self.metas.append((src, anon))
         self.ts = [self.lk.get_template("%st%d.html" % (prefix, i)) for i in range(len(bodies))]
@@ -128,12 +130,13 @@ class Impl:
             t.include_error_handler = on_include_error if ieh is not None else None
             t.format_exceptions = fe
 
-    def run(self, k, mode):
-        """-> dict(res, out (after a Context.write('|A')), nb, nf, nc, cnt, same_object, user_out)"""
+    def run(self, k, mode, factory=None):
+        """-> dict(res, out (after a Context.write('|A')), nb, nf, nc, cnt, same_object, user_out);
+        `factory`: evaluation point -> the exception object the crash point raises (default `Boom`)"""
         from mako.runtime import Context
         from mako import util
         self.configure(mode)
-        rt.reset(k)
+        rt.reset(k, factory=factory)
         buf = util.FastEncodingBuffer()
         ctx = Context(buf)
         ctx._outputting_as_unicode = True
@@ -141,13 +144,14 @@ class Impl:
         try:
             self.ts[0].render_context(ctx)
             res = "val"
-        except rt.Boom as e:
-            res = "exc:0"
-            same = e is rt.STATE.last
         except RecursionError:
             raise
-        except Exception as e:          # noqa
-            res = "exc:other"
+        except BaseException as e:      # noqa - exceptions outside `Exception` are a dimension of the check
+            if e is rt.STATE.last or isinstance(e, rt.Boom):
+                res = "exc:0"
+                same = e is rt.STATE.last
+            else:
+                res = "exc:other"
         cnt = rt.STATE.cnt
         cs = ctx.caller_stack
         depths = (len(ctx._buffer_stack), len(cs), 0 if cs.nextcaller is None else 1)
@@ -241,9 +245,16 @@ def variants_for(bodies, stack, rng, limit, base_handler=None):
     return out
 
 
-def check_case(impl, bodies, k, mode, ref=None):
+BASE_CLASSES = [
+    ("AbortRequest", lambda i: rt.AbortRequest(302, "/login")),
+    ("KeyboardInterrupt", lambda i: KeyboardInterrupt()),
+    ("GeneratorExit", lambda i: GeneratorExit("g", i)),
+]
+
+
+def check_case(impl, bodies, k, mode, ref=None, factory=None):
     """oracle for one (set, crash point, handler).  Returns (violation site | None, detail, impl result, ref)"""
-    r = impl.run(k, mode)
+    r = impl.run(k, mode, factory)
     e = ref if ref is not None else ref_run(bodies, k, mode)
     site, detail = None, None
     if mode.get("fe"):
@@ -281,6 +292,7 @@ def run_set(ctx, bodies, st_o, st_b, st_s, pending, tag, handler=None):
     ks = [-1] + list(range(min(total, cap)))
     has_inc = any(n[0] == "inc" for b in bodies for _, n in G.walk(b))
     baseline = impl.rerender()
+    base_impl = [None]          # the same set compiled with `% except BaseException` (built on demand)
     for k in ks:
         modes = [m for m in MODES if ("ieh" not in m or has_inc)]
         if k == -1:
@@ -307,6 +319,26 @@ def run_set(ctx, bodies, st_o, st_b, st_s, pending, tag, handler=None):
                 if again != baseline:
                     report(ctx, "second-render-differs", bodies, k, mode, None,
                            {"first": baseline, "second": again}, "oracle.second_render")
+        # exception CLASS dimension: the same crash point raising an object outside `Exception`; every `% except`
+        # of the template names BaseException, so handling is as before and all cleanup must be as before
+        if k >= 0 and first_ref is not None:
+            if base_impl[0] is None:
+                try:
+                    base_impl[0] = Impl(bodies, "BaseException")
+                except Exception as ex:      # noqa
+                    base_impl[0] = False
+                    ctx.branch("generator:uncompilable-variant:" + type(ex).__name__)
+            if base_impl[0]:
+                cname, factory = BASE_CLASSES[k % len(BASE_CLASSES)]
+                for mode in (MODES[0], MODES[2], MODES[5]) if (not ctx.quick or k < 8) else (MODES[0],):
+                    st_o["cases"] += 1
+                    site, detail, r, e = check_case(base_impl[0], bodies, k, mode, None, factory)
+                    ctx.branch("class:%s:%s" % (cname, mode["name"]))
+                    ctx.nontriv((tag, k, mode["name"], cname))
+                    if site:
+                        m2 = dict(mode, exc_class=cname)
+                        report(ctx, site, bodies, k, m2, None, detail, "oracle.behaviour")
+                    pending.append((bodies, k, mode, {"exc_class": cname}, r))
         # `% try` at the ancestors of the raising node
         if k >= 0 and first_ref is not None and first_ref["res"] != "val" and first_ref["stack"]:
             lim = 2 if ctx.quick else 6
@@ -320,6 +352,18 @@ def run_set(ctx, bodies, st_o, st_b, st_s, pending, tag, handler=None):
                     continue
                 st_o["cases"] += 1
                 site, detail, r, e = check_case(vimpl, nb, k, {"name": "try"})
+                if not site and base_impl[0]:
+                    # the same `% try` written `% except BaseException`, the crash point raising outside `Exception`
+                    try:
+                        vb = Impl(nb, "BaseException")
+                        cname, factory = BASE_CLASSES[(k + 1) % len(BASE_CLASSES)]
+                        st_o["cases"] += 1
+                        s2, d2, r2, _ = check_case(vb, nb, k, {"name": "try"}, e, factory)
+                        ctx.branch("class:%s:try" % cname)
+                        if s2:
+                            report(ctx, s2, nb, k, {"name": "try", "exc_class": cname}, where, d2, "oracle.behaviour")
+                    except Exception as ex:      # noqa
+                        ctx.branch("generator:uncompilable-variant:" + type(ex).__name__)
                 ctx.branch("handler:try@depth%d" % (len(where["path"]) // 2))
                 ctx.branch("outcome-after-try:" + r["res"])
                 ctx.nontriv((tag, k, "try", where["template"], tuple(where["path"])))
@@ -337,9 +381,13 @@ def report(ctx, site, bodies, k, mode, where, detail, stream):
             any(v["site"] == site for v in ctx.violations):
         return          # systematic: one witness is enough
 
+    cls = mode.get("exc_class")
+    factory = dict(BASE_CLASSES).get(cls)
+    xc = "BaseException" if cls else "Exception"
+
     def fails(bs):
-        im = Impl(bs)
-        s, _, _, _ = check_case(im, bs, k, mode)
+        im = Impl(bs, xc)
+        s, _, _, _ = check_case(im, bs, k, mode, None, factory)
         if s == site:
             return True
         if site == "second-render-differs":
@@ -355,12 +403,12 @@ def report(ctx, site, bodies, k, mode, where, detail, stream):
             small = bodies
     if small is not bodies:
         try:
-            s2, d2, _, _ = check_case(Impl(small), small, k, mode)
+            s2, d2, _, _ = check_case(Impl(small, xc), small, k, mode, None, factory)
             if s2 == site:
                 detail = d2
         except Exception:      # noqa
             pass
-    srcs = [G.to_source(b)[0] for b in small]
+    srcs = [G.to_source(b, "", xc)[0] for b in small]
     case = {"input": "\n-----\n".join(srcs), "k": k, "handler": mode["name"], "bodies": small, "mode": mode}
     if site == "format-exceptions-render-context-buffer-replaced":
         case = {"handler": "format-exceptions", "entry": "render_context", "k": k, "bodies": small, "mode": mode,
@@ -1088,8 +1136,11 @@ def replay(ctx, data):
     mode = case.get("mode") or {"name": case.get("handler", "caller")}
     print("template:\n" + G.to_source(bodies[0])[0])
     print("crash point", k, "handler", mode)
-    impl = Impl(bodies)
-    site, detail, r, e = check_case(impl, bodies, k, mode)
+    cls = mode.get("exc_class")
+    impl = Impl(bodies, "BaseException" if cls else "Exception")
+    if cls:
+        print("the crash point raises", cls, "(outside Exception); every `% except` names BaseException")
+    site, detail, r, e = check_case(impl, bodies, k, mode, None, dict(BASE_CLASSES).get(cls))
     print("implementation:", json.dumps(r))
     print("reference     :", json.dumps({kk: v for kk, v in e.items() if kk != "stack"}))
     try:
